@@ -16,7 +16,7 @@ def replay_engine(crate, scenario, oid, what, label="BOUNDED (fallback, consulte
         if not m:
             out["tool_errors"].append("fallback %s: no result: %s" % (scenario, (p.stdout + p.stderr)[-400:])); return out
         out["obligations"][oid] = {"unit": "replay/" + crate, "clause": label + what, "instances": 1,
-                                   "ok": m.group(1) == "ok", "back_end": "execution of the real code, bounded", "kind": "bounded"}
+                                   "ok": m.group(1) == "ok", "back_end": "execution of the real code", "kind": "execution"}
         if m.group(1) != "ok":
             out["violations"].append({"property": prop, "obligation": oid, "unit": "replay/" + crate, "item": None, "verus_message": "bounded execution found a failing input",
                                       "sites": [{"item": None, "file": None, "line": None, "stmt": scenario}], "clause": what, "verus_output": p.stdout[-2000:],
@@ -43,7 +43,7 @@ def nixtable_engine(prop, tier, work):
     if not m:
         out["tool_errors"].append("nixtable: no result: " + (p.stdout + p.stderr)[-400:]); return out
     out["obligations"][oid] = {"unit": "replay/nixtable", "clause": "executed: nix from_str/try_from/as_str behave as the axioms of prelude/names_env.rs say, for every nix signal" + m.group(2),
-                               "instances": 1, "ok": m.group(1) == "ok", "back_end": "execution of the real nix crate (table validation, not proof)"}
+                               "instances": 1, "ok": m.group(1) == "ok", "back_end": "execution of the real nix crate (table validation, not proof)", "kind": "execution"}
     if m.group(1) != "ok":
         out["violations"].append({"property": prop, "obligation": oid, "unit": "replay/nixtable", "item": None, "verus_message": "assumed dependency contract does not hold",
                                   "sites": [], "clause": "", "verus_output": m.group(0), "counterexample": {"observed": m.group(2)}, "note": "executed on the real nix crate"})
